@@ -116,7 +116,7 @@ func TestC07MakerFundsNeverAbandoned(t *testing.T) {
 	col := stats.Get("C07.hist")
 	rapid.Check(t, func(t *rapid.T) {
 		h := newHist(t, HistCfg{MaxSteps: 28, Chains: []string{"btc", "lbtc"}, Restarts: true, Crashes: true, Faults: true, PayOutcomes: true, Timeouts: true, Drops: true, Adversary: true, Eager: true,
-			Weights: map[string]int{"start": 0, "progress": 12, "deliver": 2, "settle": 1, "restart": 2, "mine": 2, "watcher": 1, "paid": 1, "timeout": 1, "payplan": 2, "resolve": 1, "fault": 4, "armcrash": 3, "peer": 3}})
+			Weights: map[string]int{"start": 0, "progress": 12, "deliver": 2, "settle": 1, "restart": 2, "mine": 2, "watcher": 1, "paid": 1, "timeout": 1, "payplan": 2, "resolve": 1, "fault": 4, "armcrash": 3, "peer": 3, "makerdown": 2}})
 		defer h.Close()
 		h.A.ChangeBefore = rapid.IntRange(0, 2).Draw(t, "changeBeforeA")
 		h.B.ChangeBefore = rapid.IntRange(0, 2).Draw(t, "changeBeforeB")
